@@ -145,6 +145,7 @@ type ev struct {
 
 // Sim is one run.
 type Sim struct {
+	prop  string
 	mu    sync.Mutex
 	tape  *kernel.Tape
 	log   *kernel.Log
@@ -196,7 +197,7 @@ func (s *Sim) eventU(r uint64, format string, args ...any) {
 
 func (s *Sim) violate(oracle, key, detail string) {
 	if s.viol == nil {
-		s.viol = &kernel.Violation{Property: "C30", Oracle: oracle, Key: key, Detail: detail, Step: s.step}
+		s.viol = &kernel.Violation{Property: s.prop, Oracle: oracle, Key: key, Detail: detail, Step: s.step}
 	}
 }
 
@@ -948,10 +949,14 @@ func (Engine) Name() string { return "catchupsim" }
 
 func (Engine) Run(t *testing.T, prop, tier string, tape *kernel.Tape, keepLog bool) *kernel.RunResult {
 	res := &kernel.RunResult{}
-	if prop != "C30" {
-		res.HarnessErr = "catchupsim decides C30 only, not " + prop
+	// C30 is this engine's property; C29 ("commitments bind contents") uses it as its second engine: on the
+	// catchup path the only thing that ties a downloaded payset to the certified header is the service's
+	// ContentsMatchHeader call, and the write oracle (canonical bytes) judges exactly that.
+	if prop != "C30" && prop != "C29" {
+		res.HarnessErr = "catchupsim decides C30 (and, as second engine, C29), not " + prop
 		return res
 	}
+
 	var s *Sim
 	oldRand := crand.Reader
 	defer func() { crand.Reader = oldRand }()
@@ -970,7 +975,7 @@ func (Engine) Run(t *testing.T, prop, tier string, tape *kernel.Tape, keepLog bo
 			}
 		}()
 		synctest.Test(t, func(t *testing.T) {
-			s = &Sim{tape: tape, log: kernel.NewLog(keepLog), reqSeq: map[uint64]int{}, authSeq: map[basics.Round]int{}, ackSeq: map[basics.Round]int{},
+			s = &Sim{prop: prop, tape: tape, log: kernel.NewLog(keepLog), reqSeq: map[uint64]int{}, authSeq: map[basics.Round]int{}, ackSeq: map[basics.Round]int{},
 				agreeCerts: map[basics.Round]bool{}, stats: map[string]int64{}, states: map[string]bool{}}
 			s.cfg = drawConfig(tape, tier)
 			crand.Reader = simRand{s}
